@@ -17,7 +17,7 @@ import shutil
 import tempfile
 
 from cddvc import e1, extract
-from cddvc.report import PROVED, REFUTED, Run, compare_baseline
+from cddvc.report import PROVED, REFUTED, UNDECIDED, Run, compare_baseline
 from checks import common
 
 INPUT_SRC = '''class In(object):
@@ -37,6 +37,9 @@ INPUT_SRC = '''class In(object):
 
 
 LIT = "one"
+VERBOSE = (0, 1, 2, True, False)
+MODES = ("min", "max", "min")
+PAIR = [1, 1.0]
 
 
 def src(p: float = 1.5, q: bool = True):
@@ -59,7 +62,7 @@ OUTPUT_SRCS = [
     "def keep(a, /, b=1, x=2, s=4):\n    return a\n\n\nclass P(object):\n    def keep(self, /, b=1, x=2):\n        return b\n",
 ]
 INPUT_PARAMS = ["In.x", "In.s", "In.e", "src.p", "src.q"]
-EVAL_PARAMS = ["LIT"]
+EVAL_PARAMS = ["LIT", "VERBOSE", "MODES", "PAIR"]
 
 
 def locate(tree, dotted):
@@ -161,6 +164,23 @@ def one_call(d, inp_path, out_src, ip, op, wrap, ev):
             return ("annotation", "slot annotation is %r, expected %r (%s -> %s, wrap=%r)" % (ann, exp, ip, op, wrap))
     elif ann is None or "Literal" not in ann:
         return ("annotation", "eval mode: slot annotation is %r, expected a Literal" % ann)
+    else:
+        # the Literal lists exactly the members of the evaluated value: same values AND types, same order, repeats kept
+        ns = {}
+        exec("from typing import Optional\n\n" + INPUT_SRC, ns)
+        val = ns[ip]
+        want_m = [val] if isinstance(val, str) else list(val)
+        try:
+            tree = ast.parse(ann, mode="eval").body
+            lit = next(n_ for n_ in ast.walk(tree) if isinstance(n_, ast.Subscript) and ast.unparse(n_.value).endswith("Literal"))
+            got_m = ast.literal_eval(lit.slice)
+            got_m = list(got_m) if isinstance(got_m, tuple) else [got_m]
+        except Exception as ex:
+            return ("annotation", "eval mode: cannot read the members of %r (%s)" % (ann, ex))
+        if [(type(x).__name__, x) for x in got_m] != [(type(x).__name__, x) for x in want_m]:
+            if isinstance(val, str) and got_m == list(val):
+                return ("annotation-eval-str", "eval mode: %s evaluates to the string %r and the slot got its CHARACTERS: %s" % (ip, val, ann))
+            return ("annotation", "eval mode: %s evaluates to %r but the slot got %s" % (ip, val, ann))
     return None
 
 
@@ -205,7 +225,22 @@ def structural_lookup(run):
         ok = bool(comps) and iters == ["node.args.args"]
         detail = "every comprehension yielding `_arg._idx` iterates node.args.args" if ok else "the `_idx` lookup iterates %s" % iters
     run.add("C13/structural/visit_FunctionDef/idx-lookup-over-positional-args-only", PROVED if ok else REFUTED, "rule-engine", detail=detail)
-    return [] if ok else [("C13/structural/visit_FunctionDef/idx-lookup-over-positional-args-only", detail)]
+    out = [] if ok else [("C13/structural/visit_FunctionDef/idx-lookup-over-positional-args-only", detail)]
+    # --input-eval: the Literal lists the members of the evaluated value one by one -- map(set_value, it) over `it` itself
+    # (no de-duplication, no filter), or set_value(it[0]) for a single member
+    lit, _s, _p = extract.find_def("cdd.shared.ast_utils", "it2literal")
+    ok2, detail2 = None, "it2literal not found"
+    if lit is not None:
+        kws = [k for n in ast.walk(lit) if isinstance(n, ast.Call) for k in n.keywords if k.arg == "elts"]
+        singles = [n for n in ast.walk(lit) if isinstance(n, ast.IfExp)]
+        ok2 = (len(kws) == 1 and ast.unparse(kws[0].value) in ("list(map(set_value, it))", "[set_value(e) for e in it]")
+               and len(singles) == 1 and ast.unparse(singles[0].test) == "len(it) > 1" and ast.unparse(singles[0].orelse) == "set_value(it[0])")
+        detail2 = ("Literal members are list(map(set_value, it)) when len(it) > 1, else set_value(it[0]): one member per element of the evaluated value, in order" if ok2
+                   else "it2literal builds the members as: %s" % [ast.unparse(k.value)[:80] for k in kws])
+    run.add("C13/structural/it2literal/one-member-per-element-in-order", UNDECIDED if ok2 is None else (PROVED if ok2 else REFUTED), "rule-engine", detail=detail2)
+    if ok2 is False:
+        out.append(("C13/structural/it2literal/one-member-per-element-in-order", detail2))
+    return out
 
 
 def main(tier, write_baseline=False):
